@@ -484,6 +484,8 @@ class BlockUploadStream(io.RawIOBase):
         self._server_crc = None
         self._ackseq = 0
         self._error = False
+        # Data already received that did not fit into the buffer given to readinto()
+        self._spare = b""
 
         logger.debug("Reading 0x%04X:%02X from node %d", index, subindex,
                      sdo_client.rx_cobid - 0x600)
@@ -527,10 +529,13 @@ class BlockUploadStream(io.RawIOBase):
         :returns: 1 - 7 bytes of data or no bytes if EOF.
         :rtype: bytes
         """
-        if self._done:
-            return b""
         if size is None or size < 0:
             return self.readall()
+        if self._spare:
+            data, self._spare = self._spare, b""
+            return data
+        if self._done:
+            return b""
 
         try:
             response = self.sdo_client.read_response()
@@ -629,6 +634,9 @@ class BlockUploadStream(io.RawIOBase):
         and return the number of bytes read.
         """
         data = self.read(7)
+        # A segment can hold more than the buffer takes: keep the rest for the next call
+        self._spare = data[len(b):]
+        data = data[:len(b)]
         b[:len(data)] = data
         return len(data)
 
